@@ -147,8 +147,10 @@ def r09_inventory(ctx, rep, roles, P="C09", ent=None, rule_id="R09.1", extra_tab
     for s in sites:
         kind = s.kind
         owner = owner_of(fx, s.fn)
-        if kind.startswith("assert:Overflow(") and kind[16:19] in ("Add", "Mul", "Shl"):
-            classes["argued:64-bit-overflow"] = classes.get("argued:64-bit-overflow", 0) + 1
+        if kind.startswith("assert:Overflow(") and kind[16:19] in ("Add", "Mul", "Shl") and overflow_type(fx, s) in ("usize", "u8", "isize"):
+            # sums of in-memory lengths (usize) and of small tags (u8); arithmetic on 64-bit protocol integers (versions,
+            # heartbeats: a datagram can carry u64::MAX) is NOT argued away — it needs a table row like any other site
+            classes["argued:length-overflow"] = classes.get("argued:length-overflow", 0) + 1
             continue
         if not kind.startswith("diverge:") and panics.operand_is_constant(fx, s.fn, s):
             classes["constant-operand"] = classes.get("constant-operand", 0) + 1
@@ -195,6 +197,22 @@ def r09_inventory(ctx, rep, roles, P="C09", ent=None, rule_id="R09.1", extra_tab
     rep.floor("panic-sites", len(sites), 40)
     rep.instance(len(sites))
     return sites
+
+
+def overflow_type(fx, s):
+    """integer type of the checked operation whose overflow flag an Overflow assertion tests"""
+    f = fx.fns[s.fn]
+    c = s.term.get("cond") or {}
+    pl = c.get("place") if c.get("k") in ("move", "copy") else None
+    if not pl:
+        return None
+    for l in f.get("locals") or []:
+        if l["i"] == pl["local"]:
+            ty = l["ty"].strip()
+            if ty.startswith("(") and ty.endswith(", bool)"):
+                return ty[1:-len(", bool)")]
+            return ty
+    return None
 
 
 def verify(fx, fn_rows, s, how):
